@@ -399,7 +399,13 @@ impl G {
                 1 if self.sw.clones => Op::DropPing(id),
                 _ => Op::Ping(id),
             },
-            KindTag::Lifecycle => Op::Ping(id),
+            KindTag::Lifecycle => {
+                if self.rng.chance(1, 3) {
+                    Op::PeerWrite(id, 3)
+                } else {
+                    Op::Ping(id)
+                }
+            }
             KindTag::Channel if self.rng.chance(1, 80) => Op::SendMany(id, *self.rng.pick(&[1023u32, 1024, 1025, 2049])),
             KindTag::Channel => match self.rng.below(10) {
                 0 if self.sw.clones => Op::CloneSender(id),
@@ -471,7 +477,9 @@ impl G {
                 let two = with_ping && self.rng.chance(1, 2);
                 let fail_step2 = two && (self.p.faults || self.p.scripted_faults) && self.rng.chance(1, 5);
                 let keep_rejected = self.rng.chance(2, 3);
-                Op::InsertLifecycle { id, with_ping, with_timer: None, synth, script, two, fail_step2, keep_rejected }
+                let sock = self.rng.chance(1, 3);
+                let synth_on_sock = sock && self.rng.chance(2, 3);
+                Op::InsertLifecycle { id, with_ping, with_timer: None, synth, script, two, fail_step2, keep_rejected, sock, synth_on_sock }
             }
             KindTag::Generic => {
                 let mut fd = match self.rng.below(6) {
